@@ -14,9 +14,9 @@ if [ -f "$D/demo.py" ]; then
   (cd /tmp && PYTHONPATH=/repo timeout 600 /venv/bin/python -W ignore "$D/demo.py" >/dev/null 2>&1); du=$?
   echo "demo: changed-tree exit=$dc unchanged-tree exit=$du"
 fi
-cd /verif && VERIF_REPO="$WT" ./check "$P" "$@" > "$WT.log" 2>&1; rc=$?
+cd /verif && VERIF_EVIDENCE_DIR="$WT.ev" VERIF_REPO="$WT" ./check "$P" "$@" > "$WT.log" 2>&1; rc=$?
 grep -c '^VIOLATION' "$WT.log" | sed 's/^/violations: /'
 grep '^VIOLATION' "$WT.log" | head -3
 tail -1 "$WT.log"
 echo "SEEDED $P $(basename $D): check exit=$rc"
-rm -f "$WT.log"
+rm -rf "$WT.log" "$WT.ev"
